@@ -1,5 +1,6 @@
 import Rough.Model.Tag
 import Rough.Model.Version
+import Rough.Model.Sign
 /-
   Runtime library for the Lean code that `checklib/rs2lean` generates from /repo's Rust sources
   (`Rough/Generated/Src/*.lean`).  Generated functions live in the `Res` monad (ok | err | panic site);
@@ -24,6 +25,9 @@ instance : LawfulMonad Res := LawfulMonad.mk' Res
   (id_map := fun x => by cases x <;> rfl)
   (pure_bind := fun _ _ => rfl)
   (bind_assoc := fun x _ _ => by cases x <;> rfl)
+
+instance : Inhabited Signer := ⟨⟨[], []⟩⟩
+instance : Inhabited Verifier := ⟨⟨[], []⟩⟩
 
 namespace Rs
 
@@ -191,6 +195,35 @@ def enumerate {α} (l : List α) : List (Nat × α) := (List.range l.length).zip
 def rep {α} (x : α) (n : Nat) : List α := List.replicate n x
 /-- `(lo..hi)` -/
 def range (lo hi : Nat) : List Nat := (List.range (hi - lo)).map (· + lo)
+
+/-- `map[&k]` on a `HashMap` (kept as the association list it was collected from): panics when the key is absent -/
+def mapIdx {κ α} [BEq κ] (m : List (κ × α)) (k : κ) (site : String) : Res α :=
+  match m.find? (fun e => e.1 == k) with
+  | some e => .ok e.2
+  | none => .panic site
+/-- `opt.map(|x| f(x))` with a closure that calls translated (monadic) code -/
+def optMapM {α β} (o : Option α) (f : α → Res β) : Res (Option β) :=
+  match o with
+  | some a => (f a).bind fun b => .ok (some b)
+  | none => .ok none
+/-- byteorder `read_u64::<LittleEndian>()` on a temporary `&[u8]`: `Err(UnexpectedEof)` when shorter than 8 bytes -/
+def sliceReadU64 (b : Bytes) : Res Nat := if b.length < 8 then .err else .ok (leVal (b.take 8))
+def sliceReadU32 (b : Bytes) : Res Nat := if b.length < 4 then .err else .ok (leVal (b.take 4))
+def sliceReadU16 (b : Bytes) : Res Nat := if b.length < 2 then .err else .ok (leVal (b.take 2))
+
+/-- byteorder write into a fixed-size `&mut [u8]`: overwrites the prefix; `Err(WriteZero)` when it does not fit -/
+def sliceWrite (dst data : Bytes) : Res Bytes :=
+  if dst.length < data.length then .err else .ok (data ++ dst.drop data.length)
+/-- `u64` addition / multiplication with overflow checks (dev profile) -/
+def addU64 (a b : Nat) (site : String) : Res Nat := if a + b ≥ 2 ^ 64 then .panic site else .ok (a + b)
+def mulU64 (a b : Nat) (site : String) : Res Nat := if a * b ≥ 2 ^ 64 then .panic site else .ok (a * b)
+/-- a `SystemTime` at or after the Unix epoch / the `Duration` since the epoch: whole seconds and nanoseconds -/
+structure Time where
+  secs : Nat
+  nanos : Nat
+  deriving Repr, DecidableEq, Inhabited
+/-- `now.duration_since(UNIX_EPOCH)`: `Ok` for every clock reading not before the epoch (the only ones modelled) -/
+def durationSinceEpoch (t : Time) : Res Time := .ok t
 
 /-! ### std::io::Cursor over a byte slice -/
 structure Cursor where
